@@ -1,14 +1,16 @@
 /-
   C16 — helper lemmas (no reference to the generated code):
   a function with vanishing derivative in the interior of an interval is constant on it, and
-  the two-point boundary-value problem `w'' = 0`, `w(0) = w(R) = 0` has only the zero solution.
+  the two-point boundary-value problem `w'' = 0`, `w(0) = w(R) = 0` has only the zero solution;
+  maximum principle: `w'' = c·w` with `c > 0`, `w(0) = w(R) = 0` has only the zero solution.
 -/
 import Mathlib.Analysis.Calculus.Deriv.MeanValue
+import Mathlib.Analysis.Calculus.DerivativeTest
 import Mathlib.Tactic.Linarith
 import Mathlib.Tactic.Ring
 
 namespace GridVerif
-open Set
+open Set Filter Topology
 
 /-- continuous on a convex set of reals, derivative `0` in its interior ⇒ constant on the set. -/
 theorem const_of_hasDerivAt_zero_interior {D : Set ℝ} (hD : Convex ℝ D) {f : ℝ → ℝ}
@@ -60,6 +62,50 @@ theorem zero_of_second_deriv_zero {R : ℝ} (hR : 0 < R) {w w1 : ℝ → ℝ}
   intro r hr
   have := hg r hr 0 hz
   rw [h0, hc0] at this
+  linarith
+
+/-- maximum principle, one side: `w'' = c·w` with `c > 0` inside, `w ≤ 0` at both ends ⇒ `w ≤ 0`. -/
+theorem nonpos_of_second_deriv_eq_pos_mul {R : ℝ} (hR : 0 < R) {w w1 w2 c : ℝ → ℝ}
+    (hc : ContinuousOn w (Icc 0 R))
+    (hw : ∀ r ∈ Ioo 0 R, HasDerivAt w (w1 r) r) (hw1 : ∀ r ∈ Ioo 0 R, HasDerivAt w1 (w2 r) r)
+    (hode : ∀ r ∈ Ioo 0 R, w2 r = c r * w r) (hcpos : ∀ r ∈ Ioo 0 R, 0 < c r)
+    (h0 : w 0 = 0) (hRv : w R = 0) : ∀ r ∈ Icc 0 R, w r ≤ 0 := by
+  by_contra hne
+  simp only [not_forall, not_le] at hne
+  obtain ⟨x, hx, hxpos⟩ := hne
+  obtain ⟨r₀, hr₀, hmax⟩ := isCompact_Icc.exists_isMaxOn ⟨x, hx⟩ hc
+  have hpos : 0 < w r₀ := lt_of_lt_of_le hxpos (hmax hx)
+  have hr₀' : r₀ ∈ Ioo 0 R := by
+    refine ⟨lt_of_le_of_ne hr₀.1 ?_, lt_of_le_of_ne hr₀.2 ?_⟩
+    · rintro rfl; rw [h0] at hpos; exact lt_irrefl _ hpos
+    · rintro rfl; rw [hRv] at hpos; exact lt_irrefl _ hpos
+  have hloc : IsLocalMax w r₀ := hmax.isLocalMax (Icc_mem_nhds hr₀'.1 hr₀'.2)
+  have hd0 : w1 r₀ = 0 := hloc.hasDerivAt_eq_zero (hw r₀ hr₀')
+  have hev : deriv w =ᶠ[𝓝 r₀] w1 := by
+    filter_upwards [Ioo_mem_nhds hr₀'.1 hr₀'.2] with r hr using (hw r hr).deriv
+  have hdd : deriv (deriv w) r₀ = w2 r₀ := by rw [hev.deriv_eq, (hw1 r₀ hr₀').deriv]
+  have hddpos : deriv (deriv w) r₀ > 0 := by
+    rw [hdd, hode r₀ hr₀']; exact mul_pos (hcpos r₀ hr₀') hpos
+  have hmin : IsLocalMin w r₀ :=
+    isLocalMin_of_deriv_deriv_pos hddpos (by rw [(hw r₀ hr₀').deriv, hd0]) (hw r₀ hr₀').continuousAt
+  have hconst : w =ᶠ[𝓝 r₀] fun _ => w r₀ := by
+    filter_upwards [hloc, hmin] with y h1 h2 using le_antisymm h1 h2
+  have : deriv (deriv w) r₀ = 0 := by
+    rw [hconst.deriv.deriv_eq]; simp
+  linarith
+
+/-- `w'' = c·w` on `(0, R)` with `c > 0`, `w` continuous on `[0, R]`, `w(0) = w(R) = 0` ⇒ `w = 0` on `[0, R]`
+(maximum principle: no positive interior maximum, no negative interior minimum). -/
+theorem zero_of_second_deriv_eq_pos_mul {R : ℝ} (hR : 0 < R) {w w1 w2 c : ℝ → ℝ}
+    (hc : ContinuousOn w (Icc 0 R))
+    (hw : ∀ r ∈ Ioo 0 R, HasDerivAt w (w1 r) r) (hw1 : ∀ r ∈ Ioo 0 R, HasDerivAt w1 (w2 r) r)
+    (hode : ∀ r ∈ Ioo 0 R, w2 r = c r * w r) (hcpos : ∀ r ∈ Ioo 0 R, 0 < c r)
+    (h0 : w 0 = 0) (hRv : w R = 0) : ∀ r ∈ Icc 0 R, w r = 0 := by
+  intro r hr
+  have h1 := nonpos_of_second_deriv_eq_pos_mul hR hc hw hw1 hode hcpos h0 hRv r hr
+  have h2 := nonpos_of_second_deriv_eq_pos_mul hR (w := fun r => -w r) (w1 := fun r => -w1 r) (w2 := fun r => -w2 r)
+    (c := c) hc.neg (fun r hr => (hw r hr).neg) (fun r hr => (hw1 r hr).neg)
+    (fun r hr => by rw [hode r hr]; ring) hcpos (by simp [h0]) (by simp [hRv]) r hr
   linarith
 
 end GridVerif
